@@ -336,6 +336,28 @@ fn statement_paths(instrs: &[Instruction], start: usize, end: usize) -> Option<V
     Some(exits)
 }
 
+/// `drop<T>` / `dup<T>` may be specialised only for droppable / duplicatable types: the only
+/// libfuncs that discard or copy a value must be allowed to by the value's type (C15).
+fn dup_drop_check(program: &Program, info: &ProgramRegistryInfo, fail: &mut dyn FnMut(String)) {
+    use cairo_lang_sierra::extensions::ConcreteType;
+    use cairo_lang_sierra::program::GenericArg;
+    for d in &program.libfunc_declarations {
+        let g = d.long_id.generic_id.0.as_str();
+        if g != "drop" && g != "dup" {
+            continue;
+        }
+        let Some(GenericArg::Type(t)) = d.long_id.generic_args.first() else { continue };
+        let Ok(ty) = info.registry().get_type(t) else { continue };
+        let ti = ty.info();
+        if g == "drop" && !ti.droppable {
+            fail(format!("dup_drop: libfunc {} = drop<{}> is declared for a type that is not droppable", d.id, t));
+        }
+        if g == "dup" && !ti.duplicatable {
+            fail(format!("dup_drop: libfunc {} = dup<{}> is declared for a type that is not duplicatable", d.id, t));
+        }
+    }
+}
+
 fn static_checks(
     name: &str,
     program: &Program,
@@ -349,6 +371,7 @@ fn static_checks(
     let mut fail = |what: String| {
         failures.push(format!("{{\"program\": {:?}, \"why\": {:?}}}", name, what));
     };
+    dup_drop_check(program, info, &mut fail);
     // ---- layout ----
     let mut expected_start = 0usize;
     for (i, si) in infos.iter().enumerate() {
@@ -631,6 +654,23 @@ fn program_mutants(p: &Program, rng: &mut Rng) -> Vec<(String, Program)> {
         q.type_declarations.swap(k, k + 1);
         out.push((format!("typeorder#{k}"), q));
     }
+    // libfunc declarations: replace a type argument by another declared type (e.g. drop<T> for a
+    // non-droppable T, store_temp<T'>, dup<T'>)
+    {
+        use cairo_lang_sierra::program::GenericArg;
+        for (k, d) in p.libfunc_declarations.iter().enumerate() {
+            for (j, a) in d.long_id.generic_args.iter().enumerate() {
+                if let GenericArg::Type(_) = a {
+                    for _ in 0..2 {
+                        let other = rng.pick(&p.type_declarations).id.clone();
+                        let mut q = p.clone();
+                        q.libfunc_declarations[k].long_id.generic_args[j] = GenericArg::Type(other);
+                        out.push((format!("libdecl#{k}.{j}"), q));
+                    }
+                }
+            }
+        }
+    }
     out
 }
 
@@ -692,6 +732,11 @@ fn main() {
         if let Some((info, metadata, casm, gas)) = &o.accepted {
             if !is_mutant {
                 static_checks(&name, program, info, casm, *gas, static_failures, static_counts);
+            } else {
+                let nm = name.clone();
+                dup_drop_check(program, info, &mut |what: String| {
+                    static_failures.push(format!("{{\"program\": {:?}, \"why\": {:?}}}", nm, what));
+                });
             }
             if program.statements.len() <= max_stmts_coq {
                 match dump(program, info, metadata, casm, *gas) {
